@@ -213,7 +213,11 @@ def check_path(case, acc):
     if 'gaps' in case:
         mode = case.get('mode', 0)
         nv = len(L.BREAKS)
-        st = L.break_gaps(st, case['line'], case['gaps'], (lambda k: mode) if mode < nv else (lambda k: k % nv))
+        spaced = [g for g, ws in enumerate(st[0][case['line']][3]) if ws]     # the whitespace gaps of the line
+        st = L.break_gaps(st, case['line'], [spaced[b] for b in case['gaps']], (lambda k: mode) if mode < nv else (lambda k: k % nv))
+    if 'opt' in case:
+        optional = L.optional_gaps(st, case['line'])
+        st = L.assign_optional(st, case['line'], [optional[b] for b in case['opt']], lambda k: L.OPT_BLANKS[(k + case.get('v', 0)) % 2])
     if 'chunks' in case:
         st = L.chunking(st, case['chunks'])
     return compare_text(case, L.render(st), acc, case.get('as')), st
@@ -346,6 +350,7 @@ def fam_chunkings(arg):
 # ---- all subsets of the gaps of one line -------------------------------------------------------------------------------------
 
 MAX_GAPS = 12
+MAX_OPT = 14
 
 
 def gap_lines():
@@ -353,9 +358,43 @@ def gap_lines():
     out = []
     for i, (_, st) in enumerate(the_corpus()):
         for li, ln in enumerate(st[0]):
-            if not ln[0] and 1 <= len(ln[3]) <= MAX_GAPS:
-                out.append((i, li, len(ln[3])))
+            g = sum(1 for ws in ln[3] if ws)
+            if not ln[0] and 1 <= g <= MAX_GAPS:
+                out.append((i, li, g))
     return out
+
+
+def opt_lines():
+    """(program index, line index, number of optional-whitespace positions) for every code line with 1..MAX_OPT of them."""
+    out = []
+    for i, (_, st) in enumerate(the_corpus()):
+        for li, ln in enumerate(st[0]):
+            e = len(L.optional_gaps(st, li))
+            if not ln[0] and 1 <= e <= MAX_OPT:
+                out.append((i, li, e))
+    return out
+
+
+def fam_optsets(arg):
+    acc = Acc('optional_blank_subsets')
+    corpus = the_corpus()
+    for i, li, e in arg:
+        name = corpus[i][0]
+        for mask in range(1 << e):
+            subset = [b for b in range(e) if mask >> b & 1]
+            for v in (0, 1):
+                case = {'prog': i, 'name': name, 'line': li, 'opt': subset, 'v': v}
+                acc.cases += 1
+                acc.transitions += len(subset)
+                ok, st = check_path(case, acc)
+                if subset or v == 0:
+                    acc.states += 1          # with no blank at all both phases give the same text
+                if subset:
+                    acc.nontrivial += 1
+                acc.outcome((i, li, len(subset), ok))
+                if mask == (1 << e) - 1 and v == 0 and (i + li) % 13 == 0:
+                    acc.sample({'root': name, 'line': li, 'blank_at_every_optional_position': L.render(st)})
+    return acc.result()
 
 
 GAP_MODES = len(L.BREAKS) + 1    # every break of the subset in the same style (5 styles), or the styles in rotation
@@ -507,6 +546,7 @@ def families(tier):
         ship.extend((d, name, k, nsh) for k in range(nsh))
     small = small_programs()
     glines = gap_lines()
+    olines = opt_lines()
     ns, ne = len(script_texts()), len(expr_texts())
     # statelessness first: its witnesses replay in a fresh process, which the runner's confirmation step needs
     return [
@@ -517,6 +557,10 @@ def families(tier):
         Family('gap_subsets', fam_gapsets, split(glines, 32),
                f'{len(glines)} corpus code lines with 1..{MAX_GAPS} gaps: every subset of the gaps broken at once x (5 break styles, or the styles in rotation)',
                expected=sum(2 ** g for _, _, g in glines) * GAP_MODES),
+        Family('optional_blank_subsets', fam_optsets, split(olines, 32),
+               f'{len(olines)} corpus code lines with 1..{MAX_OPT} optional-whitespace positions (the statement grammar has \\s* there): every subset '
+               'of them holding one blank (space / tab alternating, from either phase) and the others holding nothing',
+               expected=sum(2 ** e for _, _, e in olines) * 2),
         Family('chunkings', fam_chunkings, split(small, 24),
                f'{len(small)} corpus programs of 2..8 lines: every assignment of (no cut | cut keeping the line end | cut dropping the line end) to every line boundary',
                expected=sum(3 ** (L.physical_lines(corpus[i][1]) - 1) for i in small)),
